@@ -31,7 +31,7 @@ class State:
 
     def reset(s, it=None):
         s.mode = 0; s.tasks = []; s.alloc = {}; s.sched = 1; s.current = None; s.in_parallel = False
-        s.last_out = {}; s.readers = {}; s.mtx_group = {}; s.nrun = 0
+        s.last_out = {}; s.readers = {}; s.mtx_group = {}; s.nrun = 0; s.wl_regions = []
 
     # ---------------------------------------------------------------- entry points
     def omp_mode(s, it, a):
@@ -42,6 +42,10 @@ class State:
                 d = it.decide(len(s.schedules), None); s.sched = s.schedules[d]
             it.notes.append((50, s.sched))
         return None
+
+    def worker_local(s, it, a):
+        # [ptr, ptr+bytes): per-worker objects (kernels[omp_get_thread_num()]): two tasks run by the same worker never overlap in time
+        s.wl_regions.append((a[0], a[0] + a[1])); return None
 
     def max_threads(s, it, a): return s.T
 
@@ -209,7 +213,11 @@ class State:
                         off = s.overlap(wr, other)
                         if off is not None: s.report(it, ti, tj, base, off)
 
+    def is_worker_local(s, addr):
+        return any(lo <= addr < hi for lo, hi in s.wl_regions)
+
     def report(s, it, ti, tj, base, off):
+        if ti.worker == tj.worker and s.is_worker_local(base + off): return
         def nm(t):
             fn = it.addrfn.get(t.entry, '?')
             return 'task #%d (%s, depend %s)' % (t.id, fn, ', '.join('%s:%s' % ({1: 'in', 3: 'inout', 2: 'out', 4: 'mutexinoutset'}.get(fl & 7, fl), it.describe(a)) for a, ln, fl in t.deps))
@@ -222,7 +230,7 @@ def install(it, opts):
     it.omp = st
     it.path_start_hook = st.reset
     it.hooks.update({
-        'irsym_omp_mode': st.omp_mode, 'omp_get_max_threads': st.max_threads, 'omp_get_thread_num': st.thread_num,
+        'irsym_omp_mode': st.omp_mode, 'irsym_omp_worker_local': st.worker_local, 'omp_get_max_threads': st.max_threads, 'omp_get_thread_num': st.thread_num,
         '__kmpc_global_thread_num': st.global_thread_num, '__kmpc_fork_call': st.fork_call, '__kmpc_master': st.master,
         '__kmpc_end_master': st.end_master, '__kmpc_omp_task_alloc': st.task_alloc, '__kmpc_omp_task_with_deps': st.task_with_deps,
         '__kmpc_omp_task': st.task_nodeps, '__kmpc_omp_taskwait': st.taskwait,
